@@ -104,6 +104,11 @@ pub struct EngineCfg {
     pub c06: bool,
     pub keep_models: bool,
     pub stop_after_commit: Option<u32>,
+    /// FAULT engine: arm this plan for commit number `.0`; `.2` = Some(true) commit must
+    /// succeed (benign fault), Some(false) must fail, None either
+    pub fault: Option<(u32, Vec<simos::Fault>, Option<bool>)>,
+    pub record_calls: bool,
+    pub final_reopen_verify: bool,
     /// reported oracle ids; a failure of any other oracle ends the run quietly
     pub oracles: Vec<&'static str>,
     pub max_steps: usize,
@@ -126,6 +131,9 @@ impl EngineCfg {
             c06: false,
             keep_models: false,
             stop_after_commit: None,
+            fault: None,
+            record_calls: false,
+            final_reopen_verify: false,
             oracles: vec![],
             max_steps: 20_000,
         }
@@ -156,6 +164,7 @@ pub struct CommitRec {
     pub overflow: u64,
     pub contents_digest: u64,
     pub grew: bool,
+    pub calls: Vec<simos::Call>,
 }
 
 #[derive(Clone, Debug, Default)]
@@ -411,6 +420,8 @@ pub struct Engine<'a> {
     commit_no: u32,
     last_file_len: u64,
     stop: bool,
+    fault_done: bool,
+    pub fault_outcome: Option<String>,
 }
 
 type Cache<'b, 'tx> = HashMap<Path, Bucket<'b, 'tx>>;
@@ -429,6 +440,8 @@ impl<'a> Engine<'a> {
             commit_no: 0,
             last_file_len: 0,
             stop: false,
+            fault_done: false,
+            fault_outcome: None,
         }
     }
 
@@ -442,6 +455,13 @@ impl<'a> Engine<'a> {
         if self.stop {
             return;
         }
+        let (oracle, site) = if self.fault_done && !oracle.starts_with("fault-") {
+            // anything that goes wrong after an injected I/O error belongs to C11
+            ("fault-aftermath".to_string(), format!("{} @ {}", oracle, site))
+        } else {
+            (oracle.to_string(), site.to_string())
+        };
+        let (oracle, site) = (oracle.as_str(), site.as_str());
         let v = Violation {
             oracle: oracle.to_string(),
             site: site.to_string(),
@@ -531,6 +551,16 @@ impl<'a> Engine<'a> {
             }
             if self.stop {
                 break;
+            }
+        }
+        if self.cfg.final_reopen_verify && !self.stop {
+            if let Some(db) = self.open() {
+                self.verify_committed(&db, "final reopen");
+                drop(db);
+                simos::mark(Marker::DbClose);
+                if !self.stop {
+                    self.fsck_now("final reopen");
+                }
             }
         }
         self.out.trace = self.trace.0;
@@ -860,10 +890,21 @@ impl<'a> Engine<'a> {
         let n = self.commit_no;
         let log_call = simos::log_len();
         simos::mark(Marker::CommitCall { n });
+        let faulted = self.cfg.fault.clone().filter(|f| f.0 == n);
+        if let Some(f) = &faulted {
+            simos::arm(f.1.clone());
+        } else if self.cfg.record_calls {
+            simos::arm(vec![]);
+        }
         let r = catch(move || tx.commit());
+        let commit_calls = if faulted.is_some() || self.cfg.record_calls { simos::disarm().1 } else { Vec::new() };
         let ok = matches!(r, Ok(Ok(())));
         simos::mark(Marker::CommitReturn { n, ok });
         let log_ret = simos::log_len();
+        if let Some(f) = faulted {
+            self.after_fault(db, f.2, r, view);
+            return;
+        }
         match r {
             Ok(Ok(())) => {}
             Ok(Err(e)) => {
@@ -894,6 +935,7 @@ impl<'a> Engine<'a> {
             overflow: 0,
             contents_digest: 0,
             grew: false,
+            calls: commit_calls,
         };
         if self.cfg.fsck_commit {
             if let Some(rep) = self.fsck_now("commit") {
@@ -978,6 +1020,92 @@ impl<'a> Engine<'a> {
             }
         }
         let _ = readers;
+    }
+
+    /// C11: the commit ran with an injected I/O error. Judge what it returned and what state
+    /// the database is in on the same handle, then let the history continue from that state.
+    fn after_fault(&mut self, db: &DB, expect_ok: Option<bool>, r: Result<Result<(), jammdb::Error>, String>, view: MBucket) {
+        let fired = simos::fired();
+        if fired.is_empty() {
+            self.out.skipped = Some("the planned fault did not fire".into());
+            self.stop = true;
+            return;
+        }
+        let what = format!("{:?} on call #{} ({})", fired[0].2, fired[0].0, fired[0].1.name());
+        let ok = match r {
+            Err(p) => {
+                self.fail("fault-panic", &format!("commit: {}", p), format!("commit panicked after {}: {}", what, p), true);
+                return;
+            }
+            Ok(Ok(())) => true,
+            Ok(Err(e)) => {
+                if !matches!(EK::of(&e), EK::Io | EK::Sync | EK::InvalidDB | EK::Alloc) {
+                    self.fail("fault-result", "commit", format!("commit returned {} after {}", e, what), true);
+                    return;
+                }
+                false
+            }
+        };
+        match expect_ok {
+            Some(true) if !ok => {
+                self.fail("fault-result", "commit", format!("commit failed although the fault is benign ({})", what), true);
+                return;
+            }
+            Some(false) if ok => {
+                self.fail("fault-result", "commit", format!("commit reported success although {} failed", what), true);
+                return;
+            }
+            _ => {}
+        }
+        // same handle, fresh transaction: exactly the old or exactly the new state
+        let walked = catch(|| -> Result<MBucket, String> {
+            let tx = db.tx(false).map_err(|e| format!("tx(false): {}", e))?;
+            let mut incons = Vec::new();
+            let m = walk_tx(&tx, &mut incons);
+            match incons.first() {
+                Some(i) => Err(i.clone()),
+                None => Ok(m),
+            }
+        });
+        let got = match walked {
+            Ok(Ok(m)) => m,
+            Ok(Err(e)) => {
+                self.fail("fault-state", "same handle", format!("after {}: {}", what, e), true);
+                return;
+            }
+            Err(p) => {
+                self.fail("fault-state", "same handle", format!("reading on the same handle after {} panicked: {}", what, p), true);
+                return;
+            }
+        };
+        let is_pre = diff(&got, &self.committed, false).is_none();
+        let is_post = diff(&got, &view, false).is_none();
+        if !is_pre && !is_post {
+            let d1 = diff(&got, &self.committed, false).unwrap_or_default();
+            let d2 = diff(&got, &view, false).unwrap_or_default();
+            self.fail("fault-state", "same handle", format!("after {} the database shows neither the old nor the new state: vs old: {} | vs new: {}", what, d1, d2), true);
+            return;
+        }
+        if ok && !is_post {
+            self.fail("fault-state", "same handle", format!("commit returned Ok after {} but the old state is visible", what), true);
+            return;
+        }
+        let post = is_post && (ok || !is_pre || diff(&self.committed, &view, false).is_some());
+        self.fault_outcome = Some(format!("{}:{}:{}", what, if ok { "ok" } else { "err" }, if is_post { "post" } else { "pre" }));
+        if post {
+            self.committed = view;
+            self.out.stats.probe("fault_left_new_state");
+        } else {
+            self.out.stats.probe("fault_left_old_state");
+        }
+        self.fault_done = true;
+        if let Some(rep) = self.fsck_now("after fault") {
+            if rep.errors.is_empty() {
+                if let Some(d) = diff(&rep.contents, &self.committed, false) {
+                    self.fail("fault-fsck", "after fault", format!("file contents differ from what the handle shows: {}", d), true);
+                }
+            }
+        }
     }
 
     /// Resolve a bucket path to a handle, using (and filling) the handle cache when enabled.
